@@ -456,4 +456,18 @@ val model_out : radv -> n list
 
 val check_cfg : n -> top -> intf -> env -> n list -> n list
 
+val sum16 : n list -> n
+
+val fold16 : n -> n
+
+val icmp6_cksum_ok : n list -> n list -> n list -> bool
+
+val is_linklocal : n list -> bool
+
+val all_nodes : n list
+
+val zero_cksum : n list -> n list
+
+val check_wire : top -> intf -> env -> n list -> n list
+
 val check_C17 : n list -> n list
